@@ -1,25 +1,50 @@
-import ExponaxModel.Proofs.Instances
-import ExponaxModel.Model.IC
+import ExponaxModel.Proofs.ICAlgebra
 import ExponaxModel.Model.Guards
 /-
 C18 — initial-condition generators honour their documented contract (deterministic post-processing;
 the random draws are inputs of the model — `jax.random` is not modelled).
-(Normalisation / clamping theorems live in `Proofs/ICAlgebra.lean`.)
 -/
 set_option linter.unusedVariables false
 namespace Exponax
 open Exponax.IC Exponax.Guards
 
-/-- the post-processing keeps the number of entries (one channel of `N^D` points in, the same out) -/
-theorem C18_normalize_size {K : Type} [Add K] [Sub K] [Mul K] [Div K] [Neg K] [Zero K] [One K] [NatCast K]
-    [IntCast K] [HasSqrt K] [HasAbs K] [HasLtB K] (z s m : Bool) (u : Array K) :
-    (normalizeIc z s m u).size = u.size := by
+/-- `zero_mean`: the result has mean 0 -/
+theorem C18_zero_mean (u : Array ℝ) (hu : 0 < u.size) : mean (normalizeIc true false false u) = 0 :=
+  mean_normalizeIc_center u hu
+
+/-- `std_one` (with `zero_mean`): mean 0 and standard deviation exactly 1 -/
+theorem C18_std_one (u : Array ℝ) (hu : 0 < u.size) (hs : std (normalizeIc true false false u) ≠ 0) :
+    std (normalizeIc true true false u) = 1 ∧ mean (normalizeIc true true false u) = 0 :=
+  normalizeIc_center_std u hu hs
+
+/-- `max_one`: maximum absolute value exactly 1 (for either `zero_mean` setting) -/
+theorem C18_max_one (z s : Bool) (u : Array ℝ) (h : maxAbs (normalizeIc z s false u) ≠ 0) :
+    maxAbs (normalizeIc z s true u) = 1 :=
+  maxAbs_normalizeIc z s u h
+
+/-- clamping: all values inside `[lo, hi]` and BOTH limits are reached -/
+theorem C18_clamp (lo hi : ℝ) (hlh : lo ≤ hi) (u : Array ℝ) (hlt : minOf u < maxOf u) :
+    (∀ y ∈ (clamp lo hi u).toList, lo ≤ y ∧ y ≤ hi) ∧ minOf (clamp lo hi u) = lo ∧ maxOf (clamp lo hi u) = hi :=
+  ⟨clamp_mem_Icc lo hi hlh u hlt, minOf_clamp lo hi hlh u hlt, maxOf_clamp lo hi hlh u hlt⟩
+
+/-- scale factor -/
+theorem C18_scale (a : ℝ) (u : Array ℝ) (j : ℕ) :
+    (IC.scale a u).getD j 0 = a * u.getD j 0 ∧ mean (IC.scale a u) = a * mean u :=
+  ⟨scale_getD a u j, mean_scale a u⟩
+
+/-- truncated Fourier series: the spectrum handed to the inverse transform carries the requested offset in the
+    mean mode (`offset·N^D` in the unnormalised layout), the noise inside the cutoff, and ZERO outside it -/
+theorem C18_band_confined (D N cutoff : ℕ) (offset : ℂ) (noise : Array ℂ) (h : ℕ) (hh : h < Layout.numModes D N) :
+    truncatedSeries D N cutoff offset noise = Transform.irfftnM D N (truncatedSpectrum D N cutoff offset noise) ∧
+    (truncatedSpectrum D N cutoff offset noise).getD h 0 =
+      if h = 0 then offset * (N : ℂ) ^ D
+      else if ∀ kd ∈ Layout.wnFlat D N h, |kd| ≤ (cutoff : ℤ) then (Transform.rfftnM D N noise).getD h 0 else 0 :=
+  ⟨truncatedSeries_eq D N cutoff offset noise, truncatedSpectrum_getD D N cutoff offset noise h hh⟩
+
+/-- the post-processing keeps the number of entries -/
+theorem C18_normalize_size (z s m : Bool) (u : Array ℝ) : (normalizeIc z s m u).size = u.size := by
   unfold normalizeIc
   cases z <;> cases s <;> cases m <;> simp
-
-theorem C18_scale_entries (a : ℝ) (u : Array ℝ) (i : ℕ) (hi : i < u.size) :
-    (IC.scale a u).getD i 0 = a * u.getD i 0 := by
-  simp [IC.scale, Array.getD, hi]
 
 /-- invalid normalisation combinations are exactly the documented ones -/
 theorem C18_invalid_options (z s m : Bool) :
@@ -27,5 +52,6 @@ theorem C18_invalid_options (z s m : Bool) :
   cases z <;> cases s <;> cases m <;> simp [icNormOk]
 
 example : icNormOk true true false = true ∧ icNormOk false true false = false := by decide
+example : (0 : ℕ) < (#[1.0, 2.0] : Array ℝ).size := by simp
 
 end Exponax
